@@ -483,7 +483,21 @@ class ExprMixin:
                 if p.format_spec is not None:
                     parts.append(self.format_value(self.ev(p.value, st), p.format_spec, node, st))
                     continue
-                parts.append(self.to_str(self.ev(p.value, st)))
+                v_ = self.ev(p.value, st)
+                if isinstance(v_, (VRef, VRec)):
+                    # f"{x}" == format(x, "") == str(x) for an object whose class defines no __format__: through the
+                    # sidecar's assumed external Cls.__str__ (trusted base, see CallMixin.conv_dunder); refused without one
+                    r_ = self.conv_dunder("__str__", v_, node, st)
+                    if r_ is self._NO_CONV:
+                        raise Unsupported(f"f-string of a {v_.cls} object (no assumed contract {v_.cls}.__str__ in the sidecar)")
+                    parts.append(r_)
+                    continue
+                if is_real(v_) and not is_int(v_) and "builtins.format" in self.externals:
+                    # f"{x}" of a float == format(x, ""): the sidecar's assumed contract builtins.format (value, "")
+                    self.used_externals.add("builtins.format")
+                    parts.append(self.externals["builtins.format"](self, [v_, ""], {}, node, st))
+                    continue
+                parts.append(self.to_str(v_))
         return self.concat_str(parts)
 
     def format_value(self, v, spec_node, node, st):
